@@ -22,8 +22,12 @@ use tokio::io::{AsyncReadExt, AsyncWriteExt};
 use crate::net::{NetCfg, SimNet};
 
 pub const CA_CERT: &[u8] = include_bytes!("/repo/tests/keychain/localhost/ca.cert");
-pub const SERVER_CERT: &[u8] = include_bytes!("/repo/tests/keychain/localhost/server.cert");
-pub const SERVER_KEY: &[u8] = include_bytes!("/repo/tests/keychain/localhost/server.key");
+// The server authenticates with an Ed25519 key (certificate issued by the repository's test CA,
+// generated once with openssl, see certs/): its CertificateVerify signature has a fixed length,
+// whereas an ECDSA signature's DER length varies from run to run (random nonce) and would make
+// handshake datagram sizes - and everything scheduled after them - non-reproducible.
+pub const SERVER_CERT: &[u8] = include_bytes!("../certs/server-ed25519.cert");
+pub const SERVER_KEY: &[u8] = include_bytes!("../certs/server-ed25519.key");
 
 pub const SERVER_ADDR: ([u8; 4], u16) = ([10, 0, 0, 1], 4433);
 
